@@ -1,2 +1,179 @@
-'''C10 known-finding matchers (narrow structural predicates over a counterexample).'''
-MATCHERS = {}
+'''C10 known-finding matchers: narrow structural predicates over one
+counterexample (c10.describe): the violated rule of DirectiveTree!Viol, the
+directive kind at which it is violated, the offending ancestor kind, and the
+transformations of the history that must be responsible.  Anything else -
+another rule, the same rule at another directive kind, or a history without the
+responsible transformations - is NOT matched and makes the check exit 1.'''
+
+OMP_TRANS = ("OMPLoopTrans", "OMPParallelLoopTrans", "OMPTaskloopTrans",
+             "OMPParallelTrans", "OMPSingleTrans", "OMPMasterTrans",
+             "OMPTargetTrans")
+ACC_REGION_TRANS = ("ACCParallelTrans", "ACCKernelsTrans", "ACCDataTrans")
+ACC_TRANS = ACC_REGION_TRANS + ("ACCLoopTrans",)
+ACC_REGION_KINDS = ("acc_parallel", "acc_kernels", "acc_data", "acc_loop")
+OMP_KINDS = ("omp_parallel", "omp_parallel_do", "omp_teams_distribute_parallel_do",
+             "omp_do", "omp_loop", "omp_target", "omp_single", "omp_master",
+             "omp_taskloop", "omp_taskwait")
+
+
+def _accepted(case):
+    '''names (with options) of the transformations the implementation accepted'''
+    return [t for t, s in zip(case["trans"], case["steps"]) if s == "accepted"]
+
+
+def _has(case, *prefixes):
+    return any(t.split(":")[0] in prefixes or t.startswith(prefixes)
+               for t in _accepted(case))
+
+
+def _rule(case, clause, rule, kinds=None, ancs=None):
+    return (clause == rule and case["rule"] == rule
+            and (kinds is None or case["kind"] in kinds)
+            and (ancs is None or case["anc"] in ancs))
+
+
+def omp_inside_acc(case, clause, detail, f):
+    # an OpenMP construct below an OpenACC region: one transformation of each
+    # API was accepted
+    return (_rule(case, clause, "OmpInsideAcc", OMP_KINDS, ACC_REGION_KINDS)
+            and _has(case, *OMP_TRANS) and _has(case, *ACC_TRANS))
+
+
+def acc_inside_omp(case, clause, detail, f):
+    return (_rule(case, clause, "AccInsideOmp",
+                  ACC_REGION_KINDS + ("acc_enter_data", "acc_routine"), OMP_KINDS)
+            and _has(case, *OMP_TRANS)
+            and _has(case, *ACC_TRANS, "ACCEnterDataTrans", "ACCRoutineTrans"))
+
+
+def omp_inside_acc_routine(case, clause, detail, f):
+    return (_rule(case, clause, "OmpInsideAccRoutine", OMP_KINDS, ("acc_routine",))
+            and _has(case, "ACCRoutineTrans") and _has(case, *OMP_TRANS))
+
+
+def collapse_imperfect_omp_loop(case, clause, detail, f):
+    # only the `omp loop` directive (OMPLoopDirective checks isinstance(Loop)
+    # of loop_body[0] only); omp do / parallel do must stay refused
+    return (_rule(case, clause, "OmpCollapseNotPerfect", ("omp_loop",))
+            and any(t.startswith("OMPLoopTrans:loop:collapse=")
+                    for t in _accepted(case)))
+
+
+def collapse_imperfect_acc_loop(case, clause, detail, f):
+    return (_rule(case, clause, "AccCollapseNotPerfect", ("acc_loop",))
+            and any(t.startswith("ACCLoopTrans:") and ":collapse=" in t
+                    for t in _accepted(case)))
+
+
+def collapse_nonrect_acc_loop(case, clause, detail, f):
+    return (_rule(case, clause, "AccCollapseNonRectangular", ("acc_loop",))
+            and case["skel"] == "F"
+            and any(t.startswith("ACCLoopTrans:") and ":collapse=" in t
+                    for t in _accepted(case)))
+
+
+def acc_nested_compute(case, clause, detail, f):
+    return (_rule(case, clause, "AccNestedCompute", ("acc_parallel", "acc_kernels"),
+                  ("acc_parallel", "acc_kernels"))
+            and sum(1 for t in _accepted(case)
+                    if t.split(":")[0] in ("ACCParallelTrans", "ACCKernelsTrans")) >= 2)
+
+
+def acc_data_inside_compute(case, clause, detail, f):
+    if not _rule(case, clause, "AccDataInsideCompute",
+                 ("acc_data", "acc_enter_data"),
+                 ("acc_parallel", "acc_kernels", "acc_loop")):
+        return False
+    if case["kind"] == "acc_data":
+        return _has(case, "ACCDataTrans") and _has(case, "ACCParallelTrans",
+                                                   "ACCKernelsTrans", "ACCLoopTrans")
+    # enter data: only ACCKernelsTrans accepts a range holding the directive
+    return _has(case, "ACCEnterDataTrans") and _has(case, "ACCKernelsTrans")
+
+
+def acc_loop_separated(case, clause, detail, f):
+    # a later transformation put a directive between `acc loop` and its loop
+    acc = _accepted(case)
+    first = next((i for i, t in enumerate(acc) if t.startswith("ACCLoopTrans")), None)
+    return (_rule(case, clause, "AccLoopDirectiveWithoutLoop", ("acc_loop",))
+            and first is not None and len(acc) > first + 1)
+
+
+def acc_routine_enclosed(case, clause, detail, f):
+    acc = _accepted(case)
+    first = next((i for i, t in enumerate(acc) if t == "ACCRoutineTrans"), None)
+    region = ("OMPParallelTrans", "OMPSingleTrans", "OMPMasterTrans",
+              "OMPTargetTrans") + ACC_REGION_TRANS
+    return (_rule(case, clause, "AccRoutineNotInSpecificationPart", ("acc_routine",))
+            and first is not None
+            and any(t.split(":")[0] in region for t in acc[first + 1:]))
+
+
+def omp_worksharing_closely_nested(case, clause, detail, f):
+    # `omp do`/`omp single` directly inside do/single/master/taskloop/loop
+    # within ONE parallel region (each directive only looks for a parallel
+    # ancestor)
+    return (_rule(case, clause, "OmpWorksharingCloselyNested",
+                  ("omp_do", "omp_single"),
+                  ("omp_do", "omp_single", "omp_master", "omp_taskloop", "omp_loop"))
+            and _has(case, "OMPParallelTrans"))
+
+
+def omp_master_closely_nested(case, clause, detail, f):
+    return (_rule(case, clause, "OmpMasterCloselyNested", ("omp_master",),
+                  ("omp_do", "omp_taskloop", "omp_loop"))
+            and _has(case, "OMPParallelTrans") and _has(case, "OMPMasterTrans"))
+
+
+def omp_inside_loop_construct(case, clause, detail, f):
+    return (_rule(case, clause, "OmpInsideLoopConstruct",
+                  ("omp_do", "omp_single", "omp_master", "omp_taskloop",
+                   "omp_target", "omp_taskwait"), ("omp_loop",))
+            and any(t.startswith("OMPLoopTrans:loop") for t in _accepted(case)))
+
+
+def omp_target_not_only_teams(case, clause, detail, f):
+    return (_rule(case, clause, "OmpTargetNotOnlyTeams", ("omp_target",))
+            and _has(case, "OMPTargetTrans")
+            and any(t.startswith("OMPLoopTrans:teamsdistributeparalleldo")
+                    for t in _accepted(case)))
+
+
+def acc_gang_vector_nesting(case, clause, detail, f):
+    return ((_rule(case, clause, "AccGangInsideGangOrVector", ("acc_loop",))
+             or _rule(case, clause, "AccVectorInsideVector", ("acc_loop",)))
+            and sum(1 for t in _accepted(case)
+                    if t in ("ACCLoopTrans:gang", "ACCLoopTrans:vector")) >= 2)
+
+
+def acc_loop_parallelism_in_seq_routine(case, clause, detail, f):
+    return (_rule(case, clause, "AccLoopParallelismInSeqRoutine", ("acc_loop",))
+            and _has(case, "ACCRoutineTrans")
+            and any(t in ("ACCLoopTrans:gang", "ACCLoopTrans:vector")
+                    for t in _accepted(case)))
+
+
+def omp_single_nowait_on_begin(case, clause, detail, f):
+    return (_rule(case, clause, "OmpSingleNowaitOnBegin", ("omp_single",))
+            and "OMPSingleTrans:nowait" in _accepted(case))
+
+
+MATCHERS = {
+    "c10_omp_inside_acc": omp_inside_acc,
+    "c10_acc_inside_omp": acc_inside_omp,
+    "c10_omp_inside_acc_routine": omp_inside_acc_routine,
+    "c10_collapse_imperfect_omp_loop": collapse_imperfect_omp_loop,
+    "c10_collapse_imperfect_acc_loop": collapse_imperfect_acc_loop,
+    "c10_collapse_nonrect_acc_loop": collapse_nonrect_acc_loop,
+    "c10_acc_nested_compute": acc_nested_compute,
+    "c10_acc_data_inside_compute": acc_data_inside_compute,
+    "c10_acc_loop_separated": acc_loop_separated,
+    "c10_acc_routine_enclosed": acc_routine_enclosed,
+    "c10_omp_worksharing_closely_nested": omp_worksharing_closely_nested,
+    "c10_omp_master_closely_nested": omp_master_closely_nested,
+    "c10_omp_inside_loop_construct": omp_inside_loop_construct,
+    "c10_omp_target_not_only_teams": omp_target_not_only_teams,
+    "c10_acc_gang_vector_nesting": acc_gang_vector_nesting,
+    "c10_acc_loop_parallelism_in_seq_routine": acc_loop_parallelism_in_seq_routine,
+    "c10_omp_single_nowait_on_begin": omp_single_nowait_on_begin,
+}
